@@ -212,6 +212,19 @@ def sweep(ctx, N, focus=False):
             oke = all(same(float(a), float(b)) for a, b in zip(dinfo.error_estimate[:n + 1], (info.error_estimate * fact)[:n + 1]))
             if not (okv and oke) or bool(dinfo.failed) != bool(info.failed) or bool(dinfo.degenerate) != bool(info.degenerate) or dinfo.iterations != info.iterations:
                 ctx.violation('derivative-scaling', 'derivative(f, z0, n=%d) is not taylor(f, z0, n) times k! (values %s, error estimates %s)' % (n, 'ok' if okv else 'differ', 'ok' if oke else 'differ'), desc)
+    # at least n + 1 coefficients for EVERY n up to 100 (the FFT size is chosen from a small table: one wrong entry affects a single n)
+    for nn in range(1, 101):
+        try:
+            with np.errstate(all='ignore'), warnings.catch_warnings():
+                warnings.simplefilter('ignore')
+                cc = taylor(np.exp, z0=0.25, n=nn)
+        except Exception as ex:   # noqa
+            ctx.violation('raises', 'taylor(np.exp, z0=0.25, n=%d) raises %r' % (nn, ex), {'f': 'np.exp', 'z0': 0.25, 'n': nn})
+            break
+        ctx.count(1, ('sweep', 'count-every-n'))
+        if len(cc) < nn + 1:
+            ctx.violation('too-few-coefficients', 'taylor(np.exp, z0=0.25, n=%d) returns %d coefficients, fewer than n + 1' % (nn, len(cc)), {'f': 'np.exp', 'z0': 0.25, 'n': nn, 'returned': len(cc)})
+            break
     # failed <-> the iteration cap stopped the search: the number of circles a run WOULD use is measured with a large cap (min_iter pinned),
     # then the same run is repeated with caps below, at and above that number
     ncap = 0
